@@ -7,6 +7,22 @@ def P(n):
     return 1 << n
 
 
+NOT_APPLICABLE = {}
+
+DEFAULT_TECHNIQUE = "bounded model checking of the real crate with Kani/CBMC (SAT): inductive single step from a symbolic pre-state + symbolic public-API histories vs. reference model"
+DEFAULT_LEVEL_TEXT = ("Bounded model checking by a SAT solver over the compiled crate. (a) E-STEP: the state of the primitive and of "
+    "K futures is symbolic under a representation invariant, ONE real operation runs, invariant and property are asserted "
+    "afterwards: together with the base case this covers histories of any length over at most K live futures. (b) E-HIST: "
+    "a symbolic script of N operations from new() through the public API is compared with a reference model after every "
+    "operation; a counterexample is a concrete script that is replayed natively against the real build before it is reported. "
+    "Right level for a for-all-histories property of pointer-manipulating code: the solver decides every history within the "
+    "bounds instead of sampling, and the bounds (K, N, amounts) are stated in the evidence.")
+DEFAULT_LEVEL_NOTE = ("Trusted: rustc, Kani 0.68 (MIR->goto), CBMC 6.11, CaDiCaL, lock_api, core::task; the reference models, "
+    "oracles and invariants in /verif/harness/inc. Assumed: sequential interleavings stand for thread schedules (state is only "
+    "touched inside one internal critical section per call), MutexType = NoopLock / discipline-checking CheckLock instead of "
+    "parking_lot, at most K live futures, amounts/capacities within the stated small ranges.")
+
+
 GLOBAL_ASSUMPTIONS = [
     "Kani verifies monomorphic instances: MutexType = NoopLock (Local* flavours) and CheckLock (a RawMutex+Sync "
     "over Cell<bool> that asserts the locking discipline); parking_lot::RawMutex itself is trusted, not modelled",
@@ -438,6 +454,136 @@ MPMC_WITNESSES = [
 ]
 
 
+SEMSH = "sync::semaphore::if_alloc::verif_sem_shared::proofs"
+
+
+def c01_prop():
+    full = dict(profile="full")
+    quick = [
+        H(MUTEX, "step_c01", "step", est_s=60, bounds="E-STEP mutex K=3: queue = exactly the live waiting futures, no links outside, all Kani default checks", **full),
+        H(MUTEX, "step_c01_check", "step", est_s=60, bounds="same, MutexType=CheckLock (one non-reentrant internal lock acquisition per call)", **full),
+        H(SEM, "step_c01", "step", est_s=90, bounds="E-STEP semaphore K=3, amounts 0..3", **full),
+        H(SEM, "step_c01_check", "step", est_s=90, bounds="E-STEP semaphore, CheckLock", **full),
+        H(EVENT, "step_c01", "step", est_s=40, bounds="E-STEP event K=3", **full),
+        H(EVENT, "step_c01_check", "step", est_s=40, bounds="E-STEP event, CheckLock", **full),
+        H(ONESHOT, "step_c01", "step", est_s=40, bounds="E-STEP oneshot K=3 (incl. 'Notified is never reached' = unreachable!() stays unreachable)", **full),
+        H(ONESHOT_BC, "step_c01", "step", est_s=40, bounds="E-STEP oneshot-broadcast K=3", **full),
+        H(STATE, "step_c01", "step", est_s=40, bounds="E-STEP state-broadcast K=3, ids full u64", **full),
+        H(TIMER, "step_c01_poll", "step", est_s=150, est_gb=2.5, bounds="E-STEP timer K=4: heap = exactly the live registered futures (structural validator), poll", **full),
+        H(TIMER, "step_c01_drop", "step", est_s=400, est_gb=3, timeout=900, bounds="E-STEP timer K=4, drop (heap removal from ANY tree shape)", **full),
+        H(TIMER, "step_c01_check", "step", est_s=500, est_gb=3, timeout=900, bounds="E-STEP timer K=4, check_expirations", **full),
+    ]
+    for cap in (0, 1, 2):
+        for cn in ("ps", "pr", "dc", "tc"):
+            quick.append(H(MPMC, "step_c01_c%d_%s" % (cap, cn), "step", est_s=80, est_gb=1.5,
+                           bounds="E-STEP mpmc capacity %d, class %s: both queues = exactly the live registered futures, stored wakers" % (cap, cn), **full))
+    # contract-respecting histories never panic / never double-lock (E-HIST, all default checks)
+    quick += [
+        H(MUTEX, "hist_c01_n4", "hold", replay=("mutex_hist_noop", 2), mask=P(1), est_s=120, bounds="E-HIST mutex N=4, all Kani default checks (panics, pointer checks)", **full),
+        H(SEM, "hist_c01_x_p0_n3", "hold", replay=("sem_hist_noop", sem_cfg(2, 0)), mask=P(1), est_s=200, est_gb=3, bounds="E-HIST semaphore N=3, all default checks", **full),
+        H(EVENT, "hist_c01_n5_check", "hold", replay=("event_hist_check", 2), mask=P(1), est_s=200, bounds="E-HIST event N=5, CheckLock, all default checks", **full),
+        H(ONESHOT, "hist_c01_n5", "hold", replay=("oneshot_hist_noop", 0), mask=P(1), est_s=200, bounds="E-HIST oneshot N=5, all default checks", **full),
+        H(STATE, "hist_c01_n5", "hold", replay=("state_hist_noop", 0), mask=P(1), est_s=300, bounds="E-HIST state-broadcast N=5, all default checks", **full),
+        H(TIMER, "hist_c01_n5", "hold", replay=("timer_hist_noop", 0), mask=P(1), est_s=500, est_gb=4, timeout=900, bounds="E-HIST timer N=5, all default checks", **full),
+    ]
+    thorough = quick + [
+        H(MUTEX, "hist_c01_n6_check", "hold", replay=("mutex_hist_check", 2), mask=P(1), est_s=900, timeout=3000, bounds="E-HIST mutex N=6 CheckLock", **full),
+        H(SEM, "hist_c01_x_p2_n5_check", "hold", replay=("sem_hist_check", sem_cfg(2, 2)), mask=P(1), est_s=1500, timeout=3300, est_gb=4, bounds="E-HIST semaphore N=5 CheckLock", **full),
+        H(ONESHOT_BC, "hist_c01_n5_check", "hold", replay=("oneshot_bc_hist_check", 0), mask=P(1), est_s=600, timeout=3000, bounds="E-HIST oneshot-broadcast N=5 CheckLock", **full),
+        H(STATE, "hist_c01_n5_check", "hold", replay=("state_hist_check", 0), mask=P(1), est_s=900, timeout=3000, bounds="E-HIST state-broadcast N=5 CheckLock", **full),
+        H(TIMER, "hist_c01_n5_check", "hold", replay=("timer_hist_check", 0), mask=P(1), est_s=1500, timeout=3300, est_gb=4, bounds="E-HIST timer N=5 CheckLock", **full),
+        H(MPMC, "step_c01_c1_any_check", "step", est_s=300, timeout=3000, bounds="E-STEP mpmc capacity 1, all classes, CheckLock", **full),
+        mpmc_hist("c01", 1, 1, "sr", 0, 4, tier_quick=False),
+        mpmc_hist("c01", 1, 0, "cl", 3, 5, tier_quick=False),
+        mpmc_hist("c01", 1, 1, "sr", 5, 5, tier_quick=False, lock="check"),
+    ]
+    for j in thorough:
+        if j["harness"].startswith(MPMC) and "hist_c01" in j["harness"]:
+            j["profile"] = "full"
+            j["est_gb"] = 6
+    return {"quick": quick, "thorough": thorough,
+            "functions": MUTEX_FUNCS + SEM_FUNCS + MPMC_FUNCS + ONESHOT_FUNCS + STATE_FUNCS + ["timer::*", "manual_reset_event::*", "PairingHeap::*", "LinkedList::*"],
+            "instantiations": ["every primitive over NoopLock and over the discipline-checking CheckLock"],
+            "bounds": {"K_live_futures": "3 (timer 4, mpmc 2+2)", "step_history_length": "unbounded (inductive)", "hist_N": "3-5 with all Kani default checks"},
+            "assumptions": ["a dropped future's memory stays allocated in the harness (stack slot in ManuallyDrop): dangling waiters are detected by the "
+                            "queue-membership oracle (queue = exactly the live waiting futures, each once), not by a use-after-free fault",
+                            "the shared (Arc) wrappers reuse the same state machines; they are driven in the C11 lifecycle and C17/C18 harnesses"],
+            }
+
+
+def c17_prop():
+    quick = []
+    for (mod, what) in ((MUTEX, "mutex"), (SEM, "semaphore"), (EVENT, "event"), (ONESHOT, "oneshot"), (ONESHOT_BC, "oneshot-broadcast"),
+                        (STATE, "state-broadcast"), (TIMER, "timer")):
+        quick.append(H(mod, "step_c17", "step", est_s=60, est_gb=2, bounds="E-STEP %s: is_terminated() == 'completed' after any operation from any state" % what))
+    quick += [H(m, n, "panic", profile="full", est_s=15, bounds="poll after completion must panic (sentinel after the second poll unreachable)")
+              for (m, n) in ((MUTEX, "repoll_panics"), (SEM, "repoll_panics"), (EVENT, "repoll_panics"), (ONESHOT, "repoll_panics"),
+                             (ONESHOT_BC, "repoll_panics"), (STATE, "repoll_panics"), (TIMER, "repoll_panics"), (TIMER, "repoll_panics_send_facade"),
+                             (MPMC, "repoll_panics_send"), (MPMC, "repoll_panics_receive"), (LIFE, "repoll_panics_shared_send"),
+                             (LIFE, "repoll_panics_shared_receive"), (LIFE, "repoll_panics_shared_state"))]
+    for cap in (0, 1):
+        for cn in ("ps", "pr", "dc"):
+            quick.append(H(MPMC, "step_c17_c%d_%s" % (cap, cn), "step", est_s=60, est_gb=1.5, bounds="E-STEP mpmc capacity %d class %s: is_terminated()" % (cap, cn)))
+    quick += [
+        H(MUTEX, "hist_c17_n5", "hold", replay=("mutex_hist_noop", 2), mask=P(17), est_s=90, bounds="E-HIST mutex N=5: is_terminated() after every operation"),
+        H(SEM, "hist_c17_x_p2_n5", "hold", replay=("sem_hist_noop", sem_cfg(2, 2)), mask=P(17), est_s=300, est_gb=3, bounds="E-HIST semaphore N=5"),
+        H(EVENT, "hist_c17_n5", "hold", replay=("event_hist_noop", 2), mask=P(17), est_s=80, bounds="E-HIST event N=5"),
+        H(ONESHOT, "hist_c17_n5", "hold", replay=("oneshot_hist_noop", 0), mask=P(17), est_s=80, bounds="E-HIST oneshot N=5"),
+        H(STATE, "hist_c17_n5", "hold", replay=("state_hist_noop", 0), mask=P(17), est_s=150, bounds="E-HIST state-broadcast N=5"),
+        H(TIMER, "hist_c17_n5", "hold", replay=("timer_hist_noop", 0), mask=P(17), est_s=250, est_gb=3, bounds="E-HIST timer N=5"),
+        H(MPMC, "hist_c17_c1_st_p1_n5", "hold", replay=("mpmc_hist_noop", mpmc_cfg(1, "st", 1, 1)), mask=P(17), est_s=300, est_gb=4,
+          bounds="E-HIST mpmc capacity 1 with a ChannelStream: items = what successive receives return, None once closed and drained, terminated from then on"),
+        H(MPMC, "hist_c17_c0_st_p0_n4", "hold", replay=("mpmc_hist_noop", mpmc_cfg(0, "st", 0, 1)), mask=P(17), est_s=300, est_gb=4,
+          bounds="E-HIST mpmc capacity 0 with a ChannelStream, N=4"),
+        H(MPMC, "witness_stream_c1", "witness", replay=("mpmc_hist_noop", 1 | (1 << 4) | (1 << 8) | ((1 | 2 | 128) << 12)), mask=PALL, witness_bit=16, est_s=300, est_gb=4,
+          bounds="witness twin: the stream yields an item and later None"),
+        H(LIFE, "life_c17_state_n4", "hold", replay=("life_state", 0), mask=P(17), est_s=400, est_gb=8, timeout=900,
+          bounds="shared state-broadcast receive future: is_terminated() over handle clone/drop histories"),
+    ]
+    thorough = quick + [
+        H(MUTEX, "hist_c17_n7", "hold", replay=("mutex_hist_noop", 2), mask=P(17), est_s=900, timeout=3000, bounds="E-HIST mutex N=7"),
+        H(EVENT, "hist_c17_n7", "hold", replay=("event_hist_noop", 2), mask=P(17), est_s=900, timeout=3000, bounds="E-HIST event N=7"),
+        H(ONESHOT_BC, "hist_c17_n7", "hold", replay=("oneshot_bc_hist_noop", 0), mask=P(17), est_s=900, timeout=3000, bounds="E-HIST oneshot-broadcast N=7"),
+        H(STATE, "hist_c17_n7", "hold", replay=("state_hist_noop", 0), mask=P(17), est_s=900, timeout=3000, bounds="E-HIST state-broadcast N=7"),
+        H(MPMC, "hist_c17_c1_st_p3_n5", "hold", replay=("mpmc_hist_noop", mpmc_cfg(1, "st", 3, 1)), mask=P(17), est_s=600, est_gb=4, timeout=3000, bounds="E-HIST mpmc stream, prefix 3"),
+        H(LIFE, "life_c17_mpmc_n4", "hold", replay=("life_mpmc", 0), mask=P(17), est_s=1500, est_gb=16, timeout=3000, bonus=True, bounds="shared mpmc receive future over handle histories (bonus: memory-hungry)"),
+    ]
+    return {"quick": quick, "thorough": thorough, "functions": ["every Future::poll / FusedFuture::is_terminated / Stream::poll_next / FusedStream::is_terminated impl of the crate"],
+            "instantiations": ["all future types, borrowed; shared send/receive/state futures (repoll + lifecycle); ChannelStream"],
+            "bounds": {"K_live_futures": 3, "hist_N": "4-5 (7 thorough)", "step_history_length": "unbounded (inductive)"},
+            "assumptions": ["SharedStream is not driven (same code shape as ChannelStream over the shared receive future)"]}
+
+
+def c18_prop():
+    st = dict(kani_flags=["-Z", "stubbing"])
+    quick = [
+        H(LIFE, "c18_selftest", "hold", est_s=10, bounds="the allocator stubs are live: armed Box/Vec allocations are counted", **st),
+        H(MUTEX, "hist_c18_n5", "hold", replay=("mutex_hist_noop", 2), mask=P(18), est_s=100, bounds="E-HIST mutex N=5 with counting allocator stubs", **st),
+        H(SEM, "hist_c18_p2_n5", "hold", replay=("sem_hist_noop", sem_cfg(2, 2)), mask=P(18), est_s=400, est_gb=3, bounds="E-HIST semaphore N=5", **st),
+        H(EVENT, "hist_c18_n5", "hold", replay=("event_hist_noop", 2), mask=P(18), est_s=80, bounds="E-HIST event N=5", **st),
+        H(ONESHOT, "hist_c18_n5", "hold", replay=("oneshot_hist_noop", 0), mask=P(18), est_s=100, bounds="E-HIST oneshot N=5", **st),
+        H(ONESHOT_BC, "hist_c18_n5", "hold", replay=("oneshot_bc_hist_noop", 0), mask=P(18), est_s=100, bounds="E-HIST oneshot-broadcast N=5", **st),
+        H(STATE, "hist_c18_n5", "hold", replay=("state_hist_noop", 0), mask=P(18), est_s=200, bounds="E-HIST state-broadcast N=5", **st),
+        H(TIMER, "hist_c18_n5", "hold", replay=("timer_hist_noop", 0), mask=P(18), est_s=300, est_gb=3, bounds="E-HIST timer N=5", **st),
+        H(MPMC, "hist_c18_c1_sr_p5_n5", "hold", replay=("mpmc_hist_noop", mpmc_cfg(1, "sr", 5)), mask=P(18), est_s=300, est_gb=4, bounds="E-HIST mpmc capacity 1", **st),
+        H(MPMC, "hist_c18_c0_cl_p3_n5", "hold", replay=("mpmc_hist_noop", mpmc_cfg(0, "cl", 3)), mask=P(18), est_s=300, est_gb=4, bounds="E-HIST mpmc capacity 0", **st),
+        H(MPMC, "hist_c18_c2_tr_p0_n4", "hold", replay=("mpmc_hist_noop", mpmc_cfg(2, "tr", 0)), mask=P(18), est_s=300, est_gb=4, bounds="E-HIST mpmc capacity 2", **st),
+        H(LIFE, "life_c18_oneshot_bc_n3", "hold", replay=("life_oneshot_bc", 0), mask=P(18), est_s=300, est_gb=8, timeout=900,
+          bounds="shared oneshot-broadcast: handle clone/drop and polling after construction", **st),
+    ]
+    thorough = quick + [
+        H(LIFE, "life_c18_state_n3", "hold", replay=("life_state", 0), mask=P(18), est_s=600, est_gb=10, timeout=3000, bounds="shared state-broadcast handles", **st),
+    ]
+    return {"quick": quick, "thorough": thorough,
+            "functions": ["alloc::alloc::alloc / realloc (replaced by counting stubs) as reached from every operation of every primitive"],
+            "instantiations": ["borrowed flavours of all primitives over NoopLock; shared oneshot-broadcast / state-broadcast handles and futures"],
+            "bounds": {"hist_N": "4-5", "K_live_futures": 3},
+            "assumptions": ["frees are not observable in the model (Kani reaches the deallocator through its own model, not through alloc::alloc::dealloc); "
+                            "the native replayer counts allocations AND frees with a counting #[global_allocator]",
+                            "wakers and payloads of the harness do not allocate", "GrowingHeapBuf (the documented exception) is not driven"],
+            "technique": DEFAULT_TECHNIQUE + "; allocator entry points replaced by counting stubs (cargo kani -Z stubbing)"}
+
+
 def _c16(prop, tier, seed):
     import os, sys
     sys.path.insert(0, os.path.join(os.path.dirname(os.path.abspath(__file__)), "c16"))
@@ -461,6 +607,10 @@ PROPS["C13"] = recv_chan_prop("C13", 13, [(STATE, "state", "state-broadcast", "w
 PROPS["C14"] = c14_prop()
 PROPS["C15"] = c15_prop()
 PROPS["C19"] = c19_prop()
+PROPS["C01"] = c01_prop()
+PROPS["C17"] = c17_prop()
+PROPS["C18"] = c18_prop()
+PROPS["C01"]["level_note"] = DEFAULT_LEVEL_NOTE
 PROPS["C20"] = c20_prop()
 PROPS["C16"] = {
     "quick": [], "thorough": [], "engine": "trait-smt",
@@ -696,17 +846,3 @@ def match_known(known, prop, harness, decoded, msg):
             return k
     return None
 
-NOT_APPLICABLE = {}
-
-DEFAULT_TECHNIQUE = "bounded model checking of the real crate with Kani/CBMC (SAT): inductive single step from a symbolic pre-state + symbolic public-API histories vs. reference model"
-DEFAULT_LEVEL_TEXT = ("Bounded model checking by a SAT solver over the compiled crate. (a) E-STEP: the state of the primitive and of "
-    "K futures is symbolic under a representation invariant, ONE real operation runs, invariant and property are asserted "
-    "afterwards: together with the base case this covers histories of any length over at most K live futures. (b) E-HIST: "
-    "a symbolic script of N operations from new() through the public API is compared with a reference model after every "
-    "operation; a counterexample is a concrete script that is replayed natively against the real build before it is reported. "
-    "Right level for a for-all-histories property of pointer-manipulating code: the solver decides every history within the "
-    "bounds instead of sampling, and the bounds (K, N, amounts) are stated in the evidence.")
-DEFAULT_LEVEL_NOTE = ("Trusted: rustc, Kani 0.68 (MIR->goto), CBMC 6.11, CaDiCaL, lock_api, core::task; the reference models, "
-    "oracles and invariants in /verif/harness/inc. Assumed: sequential interleavings stand for thread schedules (state is only "
-    "touched inside one internal critical section per call), MutexType = NoopLock / discipline-checking CheckLock instead of "
-    "parking_lot, at most K live futures, amounts/capacities within the stated small ranges.")
